@@ -155,6 +155,10 @@ def shards(tier):
     k = 2 if quick else 3
     for i in range(8):
         out.append({"kind": "prefix", "k": k, "part": i, "of": 8})
+    # (2b) raw-text grammars: longer sequences over the few tokens that drive the RCDATA / RAWTEXT / script-data sub-machines
+    # (state carried in the temporary buffer and the escape flags shows up only after several constructs in a row)
+    for i in range(4):
+        out.append({"kind": "rawgrammar", "n": 8000 if quick else 300000})
     # (3) hypothesis
     for i in range(8):
         out.append({"kind": "hyp", "n": 4000 if quick else 150000})
@@ -206,6 +210,19 @@ def run_shard(desc, seed, tier):
                 n += 1
         acc.extra["enumerated"] = n
         acc.exhaustive = True
+    elif kind == "rawgrammar":
+        AL = ["<!--", "-->", "<script", "</script", "<script>", "</script>", ">", " ", "<", "</", "a", "</b>", "-", "x", "<s", "/", "</title>", "</style>", "<!-", "--", "<b", "</a>", "</a ", "&amp;", "\x00", "<a>", "</xmp>"]
+        strat = st.tuples(st.lists(st.sampled_from(AL), min_size=3, max_size=12).map("".join),
+                          st.sampled_from([("script_data", "script", False), ("script_data", "script", False), ("rcdata", "title", False), ("rawtext", "style", False), ("data", None, False),
+                                           ("script_data", "a", False), ("rcdata", "a", False), ("rawtext", "xmp", False)]),
+                          st.sampled_from(["", "", "<title>t</title><script>", "<script></b>", "<style></style><script>", "<textarea></x></textarea><script>"]))
+
+        def fn(x):
+            text, (state, last, cdata), pre = x
+            if pre and state == "data":
+                text = pre + text
+            one({"text": text, "state": state, "last": last, "cdata": cdata})
+        drive(strat, fn, desc["n"], seed)
     elif kind == "prefix":
         mine = PREFIXES[desc["part"]::desc["of"]]
         sufs = [""]
